@@ -556,6 +556,26 @@ Proof.
   rewrite Hle, Hc, Nat.eqb_refl. reflexivity.
 Qed.
 
+(* first step of the completeness argument (the rest is not proved, see Properties/C18.v): on an axis on which a vote
+   is single-peaked, the alternative the vote ranks last is one of the two end points *)
+Lemma sp_last_is_end v O x : NoDup O -> spv v O -> In x O ->
+  (forall a, In a O -> a <> x -> rk v a < rk v x) ->
+  (exists r, O = x :: r) \/ (exists r, O = r ++ [x]).
+Proof.
+  intros Hnd Hsp Hx Hlast. apply in_split in Hx. destruct Hx as (l1 & l2 & ->).
+  destruct l1 as [|a l1]; [left; exists l2; reflexivity|]. destruct l2 as [|c l2]; [right; exists (a :: l1); reflexivity|]. exfalso.
+  assert (Ha : a <> x).
+  { intros E0. subst a. simpl in Hnd. apply NoDup_cons_iff in Hnd. destruct Hnd as [Hn _]. apply Hn.
+    apply in_or_app. right. now left. }
+  assert (Hc : c <> x).
+  { intros E0. subst c. apply NoDup_app_r in Hnd. apply NoDup_cons_iff in Hnd. destruct Hnd as [Hn _]. apply Hn. now left. }
+  apply (Hsp a x c).
+  - exists [], l1, [], l2. reflexivity.
+  - split; apply Hlast; auto.
+    + now left.
+    + apply in_or_app. right. right. now left.
+Qed.
+
 (* ---------------------------------------------------------------------------------------------- *)
 (* 8. completeness: kernel-checked on small domains only (see Properties/C18.v for what is missing) *)
 
